@@ -713,6 +713,8 @@ func (g *gen) txn() {
 				line += " fail"
 				hadFail = true
 				g.feat("failing-insert")
+			} else {
+				line = strings.TrimRight(line, " ") + g.endsElsewhere()
 			}
 			out := g.emit(strings.TrimRight(line, " "))
 			if off, ok := parseOff(out); ok && !fail {
@@ -823,14 +825,14 @@ func (g *gen) keyOp(tid string, inserted, deleted map[uint32]bool, insertedOK *[
 	}
 	switch {
 	case x < 3:
-		out := g.emit(strings.TrimRight(fmt.Sprintf("p %s inskey %s %s", tid, key, g.actions(r.Intn(3), false)), " "))
+		out := g.emit(strings.TrimRight(fmt.Sprintf("p %s inskey %s %s", tid, key, g.actions(r.Intn(3), false)), " ") + g.endsElsewhere())
 		if off, ok := parseOff(out); ok {
 			inserted[off] = true
 			*insertedOK = append(*insertedOK, off)
 		}
 		g.feat("inskey")
 	case x < 6:
-		out := g.emit(strings.TrimRight(fmt.Sprintf("p %s upskey %s %s", tid, key, g.actions(1+r.Intn(2), g.p.dirty)), " "))
+		out := g.emit(strings.TrimRight(fmt.Sprintf("p %s upskey %s %s", tid, key, g.actions(1+r.Intn(2), g.p.dirty)), " ") + g.endsElsewhere())
 		if off, ok := parseOff(out); ok {
 			inserted[off] = true
 			*insertedOK = append(*insertedOK, off)
@@ -875,6 +877,20 @@ func (g *gen) keyOp(tid string, inserted, deleted map[uint32]bool, insertedOK *[
 			g.feat("rekey")
 		}
 	}
+}
+
+// endsElsewhere: now and then the callback's last step is a nested point read of another row, which leaves the
+// transaction's cursor there — what the operation itself writes afterwards (the key of a keyed insert, the
+// insert marker) still belongs to its own row
+func (g *gen) endsElsewhere() string {
+	if g.r.Intn(5) != 0 {
+		return ""
+	}
+	if off, ok := g.pickLive(); ok {
+		g.feat("callback-ends-on-another-row")
+		return fmt.Sprintf(" visit:%d", off)
+	}
+	return ""
 }
 
 func (g *gen) observe() {
